@@ -95,13 +95,29 @@ def run(ctx, B):
                 exp[j] = acc; ee[j] = bad; zp[j] = z0        # an exactly-zero elemental value (dipole axis) ends the loop with 0: don't care
             return exp, ee, zp
 
+        def both_modes(fn, *cols):
+            """the compound call with and without an error slot: 'passing no slot changes nothing but the reporting' - a failure detected only through the
+            caller's slot would return a partial sum to callers that pass NULL"""
+            rc = X.call(fn, *cols)
+            r1 = X.call(fn, *cols, mode=xrl.M_NULL)
+            ctx.add(evaluations=len(rc))
+            with np.errstate(all="ignore"):
+                diff = ~((rc["v0"] == r1["v0"]) | (np.isnan(rc["v0"]) & np.isnan(r1["v0"]))) | ~((rc["v1"] == r1["v1"]) | (np.isnan(rc["v1"]) & np.isnan(r1["v1"])))
+            for j in np.nonzero(diff)[0][:30]:
+                a = [c[j] if not isinstance(c[j], (np.floating, np.integer)) else c[j].item() for c in cols]
+                kind = "NULL" if a[0] is None else ("nist" if comp.get(a[0]) and comp[a[0]][2] is not None else "formula" if comp.get(a[0]) else "invalid")
+                ctx.violation("%s|%s|%s|no-error-slot-differs" % (cfg, fn, kind), "%s%r [%s] returns %r with an error slot (error: %s) but %r without one" % (
+                    fn, tuple(a), cfg, float(rc["v0"][j]), bool(rc["flags"][j] & F_ERR), float(r1["v0"][j])),
+                    dict(cfg=cfg, calls=[dict(fn=fn, args=a, expect=dict(type="noslot-same"))]))
+            return rc
+
         for fn in F1:
             ZZ, EE = domains.product(Zs_all, Es)
             r = X.call(fn, ZZ, EE)
             tab = r["v0"].reshape(121, len(Es)); terr = ((r["flags"] & F_ERR) != 0).reshape(121, len(Es))
             exp, ee, zp = mix(tab, terr, (len(Es),))
             I, J = domains.product(np.arange(len(names)), np.arange(len(Es)))
-            rc = X.call(fn + "_CP", [names[i] for i in I], Es[J])
+            rc = both_modes(fn + "_CP", [names[i] for i in I], Es[J])
             ctx.add(evaluations=len(I) + len(ZZ))
             check(fn + "_CP", rc["v0"], (rc["flags"] & F_ERR) != 0, exp.ravel(), ee.ravel(), zp.ravel(), lambda q: [names[I[q]], float(Es[J[q]])])
         E2 = Es[[0, 2, 4, 5, 7, 9, 12]]
@@ -111,7 +127,7 @@ def run(ctx, B):
             tab = r["v0"].reshape(121, len(E2), len(th)); terr = ((r["flags"] & F_ERR) != 0).reshape(121, len(E2), len(th))
             exp, ee, zp = mix(tab, terr, (len(E2), len(th)))
             I, J, Kk = domains.product(np.arange(len(names)), np.arange(len(E2)), np.arange(len(th)))
-            rc = X.call(fn + "_CP", [names[i] for i in I], E2[J], th[Kk])
+            rc = both_modes(fn + "_CP", [names[i] for i in I], E2[J], th[Kk])
             ctx.add(evaluations=len(I) + len(ZZ))
             check(fn + "_CP", rc["v0"], (rc["flags"] & F_ERR) != 0, exp.ravel(), ee.ravel(), zp.ravel(), lambda q: [names[I[q]], float(E2[J[q]]), float(th[Kk[q]])])
         E3 = Es[[0, 4, 5, 7, 12]]
@@ -122,7 +138,7 @@ def run(ctx, B):
             tab = r["v0"].reshape((121,) + shp); terr = ((r["flags"] & F_ERR) != 0).reshape((121,) + shp)
             exp, ee, zp = mix(tab, terr, shp)
             I, J, Kk, L = domains.product(np.arange(len(names)), np.arange(len(E3)), np.arange(len(th)), np.arange(len(ph)))
-            rc = X.call(fn + "_CP", [names[i] for i in I], E3[J], th[Kk], ph[L])
+            rc = both_modes(fn + "_CP", [names[i] for i in I], E3[J], th[Kk], ph[L])
             ctx.add(evaluations=len(I) + len(ZZ))
             check(fn + "_CP", rc["v0"], (rc["flags"] & F_ERR) != 0, exp.ravel(), ee.ravel(), zp.ravel(),
                   lambda q: [names[I[q]], float(E3[J[q]]), float(th[Kk[q]]), float(ph[L[q]])])
@@ -134,8 +150,8 @@ def run(ctx, B):
         AWv = np.where((aw["flags"] & F_ERR) != 0, np.nan, aw["v0"])
         I, J, Dd = domains.product(np.arange(len(names)), np.arange(len(Es)), np.arange(len(dens)))
         nm_col = [names[i] for i in I]
-        rre = X.call("Refractive_Index_Re", nm_col, Es[J], dens[Dd]); rim = X.call("Refractive_Index_Im", nm_col, Es[J], dens[Dd])
-        rcx = X.call("Refractive_Index", nm_col, Es[J], dens[Dd]); rc2, _ = X.op("Refractive_Index2", "sdd", nm_col, Es[J], dens[Dd])
+        rre = both_modes("Refractive_Index_Re", nm_col, Es[J], dens[Dd]); rim = both_modes("Refractive_Index_Im", nm_col, Es[J], dens[Dd])
+        rcx = both_modes("Refractive_Index", nm_col, Es[J], dens[Dd]); rc2, _ = X.op("Refractive_Index2", "sdd", nm_col, Es[J], dens[Dd])
         ctx.add(evaluations=4 * len(I))
         for q in range(len(I)):
             nm, E, d = names[I[q]], float(Es[J[q]]), float(dens[Dd[q]])
